@@ -9,10 +9,29 @@ import (
 )
 
 // vfDumpTrace prints the decoded wire log (debugging aid; VF_TRACE=1).
+var vfTraceN int //nolint:gochecknoglobals
+
 func (s *vfSim) vfDumpTrace() {
-	if os.Getenv("VF_TRACE") == "" {
+	dir := os.Getenv("VF_TRACE")
+	if dir == "" {
 		return
 	}
+	vfTraceN++
+	f, err := os.Create(fmt.Sprintf("%s/%s-%d.txt", dir, s.spec.ID, vfTraceN))
+	if err != nil {
+		return
+	}
+	defer f.Close() //nolint:errcheck
+	defer func() {
+		s.res.mu.Lock()
+		for _, v := range s.res.res.Violations {
+			fmt.Fprintf(f, "VIOLATION %s %s: %s\n", v.Prop, v.Key, v.Msg)
+		}
+		for _, w := range s.res.res.Witness {
+			fmt.Fprintf(f, "WITNESS %s\n", w)
+		}
+		s.res.mu.Unlock()
+	}()
 	kinds := []string{"W", "D", "X", "I"}
 	for _, e := range s.net.events() {
 		if e.Pkt == nil {
@@ -36,7 +55,7 @@ func (s *vfSim) vfDumpTrace() {
 		if e.Snap != nil {
 			sn = fmt.Sprintf(" [st=%d cwnd=%d rwnd=%d infl=%d/%d pend=%d cum=%d peerLast=%d credit=%d]", e.Snap.State, e.Snap.CWND, e.Snap.RWND, e.Snap.InflightN, e.Snap.InflightB, e.Snap.PendingN, e.Snap.CumAck, e.Snap.PeerLastTSN, e.Snap.Credit)
 		}
-		fmt.Fprintf(os.Stderr, "%6d %12v %s%d%s%s\n", e.Seq, e.T, kinds[e.Kind], e.Side, sb.String(), sn)
+		fmt.Fprintf(f, "%6d %12v %s%d%s%s\n", e.Seq, e.T, kinds[e.Kind], e.Side, sb.String(), sn)
 	}
 }
 
